@@ -10,6 +10,8 @@ func init() {
 			ff := c.fileFilter("bvh.go", "collisions.go", "sdf.go", "coord_tree.go", "render3d/object.go")
 			c.runUnits("UNIT", pkgs, ff)
 			c.floor("UNIT", 40)
+			c.runArgSwap("ARGSWAP", pkgs, baseIn("bvh.go", "collisions.go", "sdf.go", "coord_tree.go"), nil)
+			c.floor("ARGSWAP", 25)
 			spk := append(c.libPkgs()[:4:4], c.fixturePkg("s"))
 			c.runComplementarySplit("CS", spk, ff)
 			c.floor("CS", 12)
